@@ -110,7 +110,16 @@ Definition implicit_conv (p : platform) (t1 t2 : ctype) (v : Z) : Z :=
     cast_value s (Z.max n1 n2) v.
 
 (* verdict for `x o c` / `c o x` with x : vt, c : ct (a constant that fits ct) *)
+(* fix 6eefeb1: a signed operand that the usual arithmetic conversions turn into an unsigned type
+   (the constant is unsigned and at least as wide as int and as the operand) is skipped *)
+Definition signed_to_unsigned_skip (p : platform) (vt ct : ctype) : bool :=
+  match vsign_of vt, t_sign ct with
+  | VSigned, Unsigned => Z.max (int_bit p) (bits_of p (t_base vt)) <=? bits_of p (t_base ct)
+  | _, _ => false
+  end.
+
 Definition oor_in_context (p : platform) (vt ct : ctype) (const_left : bool) (o : cmp) (c : Z) : option bool :=
+  if signed_to_unsigned_skip p vt ct then None else
   let kiv := if const_left then implicit_conv p ct vt c else implicit_conv p vt ct c in
   out_of_type_range (int_bit p) (bits_of p (t_base vt)) (vsign_of vt)
                     (match t_sign ct with Signed => true | Unsigned => false end)
@@ -123,9 +132,12 @@ Definition c_compare (p : platform) (vt ct : ctype) (const_left : bool) (o : cmp
 (* ---------- CheckCondition::comparison: (X & c1) o c2, (X | c1) o c2 ----------
    is_and    : expr1->str() == "&"   (else "|")
    unsigned1 : expr1->astOperand1()'s type is UNSIGNED (only consulted for "|")
-   The code swaps the operands when the constant is on the left but keeps the operator, so the
-   verdict is always computed for "(X bitop c1) o c2". *)
-Definition mask_compare (is_and unsigned1 : bool) (o : cmp) (c1 c2 : Z) : option bool :=
+   The code swaps the operands when the constant is on the left and mirrors the operator. *)
+Definition mirror (o : cmp) : cmp :=
+  match o with CLt => CGt | CLe => CGe | CGt => CLt | CGe => CLe | o' => o' end.
+
+(* the verdict table for "(X bitop c1) o c2" *)
+Definition mask_table (is_and unsigned1 : bool) (o : cmp) (c1 c2 : Z) : option bool :=
   if c2 <? 0 then None
   else if c1 <? 0 then None
   else
@@ -145,6 +157,10 @@ Definition mask_compare (is_and unsigned1 : bool) (o : cmp) (c1 c2 : Z) : option
           else None
         else None
     end.
+
+(* fix 16eb134: the operator is mirrored when the constant is the left operand *)
+Definition mask_compare (is_and unsigned1 const_left : bool) (o : cmp) (c1 c2 : Z) : option bool :=
+  mask_table is_and unsigned1 (if const_left then mirror o else o) c1 c2.
 
 Definition bit_value (is_and : bool) (x c1 : Z) : Z := if is_and then Z.land x c1 else Z.lor x c1.
 
